@@ -14,7 +14,12 @@ pub fn observe(nt: usize, nd: usize, ix: usize, r: f32) -> String {
     format!("( topo {} {} {} {} {} )", nt, nd, ix, enc_f32(r), s)
 }
 
-pub fn run(seed: u64, tier: &str, out: &mut dyn FnMut(String)) {
+pub fn run(seed: u64, tier: &str, out0: &mut dyn FnMut(String)) {
+    // a marker before every call: a call that never returns is then attributed to its arguments
+    let mut probe = |nt: usize, nd: usize, ix: usize, r: f32| {
+        out0(format!("#c topo {} {} {} {}", nt, nd, ix, enc_f32(r)));
+        out0(observe(nt, nd, ix, r));
+    };
     let maxn = if tier == "thorough" { 700 } else { 160 };
     // radii: 0, lattice distances, midpoints between them, large, invalid
     let radii: [f32; 12] = [0.0, 0.5, 1.0, 1.2, 1.4142135, 1.5, 1.7320508, 2.0, 2.2360679, 3.0, 1000.0, -1.0];
@@ -31,7 +36,7 @@ pub fn run(seed: u64, tier: &str, out: &mut dyn FnMut(String)) {
                 let k = if nt <= 27 { radii.len() } else { 5 };
                 for j in 0..k {
                     let rad = if nt <= 27 { radii[j] } else { *r.pick(&radii) };
-                    out(observe(nt, nd, ix, rad));
+                    probe(nt, nd, ix, rad);
                 }
             }
         }
@@ -42,26 +47,26 @@ pub fn run(seed: u64, tier: &str, out: &mut dyn FnMut(String)) {
     {
         for ix in [0usize, 1, nt / 2, nt - 1] {
             for rad in [0.0f32, 1.0, 1.5, 2.5] {
-                out(observe(nt, nd, ix, rad));
+                probe(nt, nd, ix, rad);
             }
         }
     }
     // one past a perfect power at sizes where the f32 root estimate loses the "+1" (2^20+1 = 1024^2+1 =
     // 32^4+1 = 16^5+1 = 4^10+1 = 2^20+1): the edge must still be the smallest one that holds all indices
-    let big_dims: &[usize] = if tier == "thorough" { &[2, 4, 5, 10, 20] } else { &[2, 20] };
+    let big_dims: &[usize] = if tier == "thorough" { &[1, 2, 4, 5, 10, 20] } else { &[1, 2, 20] };
     for nd in big_dims {
         let nt = 1048577usize;
-        out(observe(nt, *nd, 0, 0.0));
-        out(observe(nt, *nd, nt - 1, 1.0));
+        probe(nt, *nd, 0, 0.0);
+        probe(nt, *nd, nt - 1, 1.0);
     }
     if tier == "thorough" {
         for (nt, nd) in [(5764802usize, 8usize), (6765202, 4), (16777217, 2), (16777216, 2), (1048576, 20), (1048575, 4)] {
-            out(observe(nt, nd, 0, 0.0));
-            out(observe(nt, nd, nt - 1, 1.0));
+            probe(nt, nd, 0, 0.0);
+            probe(nt, nd, nt - 1, 1.0);
         }
     }
-    out(observe(10, 2, 3, f32::NAN));
-    out(observe(10, 2, 3, f32::INFINITY));
+    probe(10, 2, 3, f32::NAN);
+    probe(10, 2, 3, f32::INFINITY);
 }
 
 pub fn replay(xs: &[Sx]) -> Option<String> {
